@@ -51,6 +51,11 @@ DEDICATED = {
     "DynamicBayesianNetwork.add_cpds:duplicate-cpd": {"cls": "DBN", "ops": [["add_node", "d1"], ["add_cpds", ["d1", 0], "ok", 1], ["add_cpds", ["d1", 0], "ok", 2]]},
     "DynamicBayesianNetwork.remove_node:dangling-cpd": {"cls": "DBN", "ops": [["add_node", "d1"], ["add_cpds", ["d1", 0], "ok", 1], ["remove_node", ["d1", 0]]]},
     "DynamicBayesianNetwork.copy:raised:ValueError": {"cls": "DBN", "ops": [["add_edge", ["d1", 0], ["e", 1]], ["copy", True]]},
+    "BayesianNetwork.remove_node:dangling-cpd-of-non-child": {"cls": "BN", "ops": [
+        ["add_edges_from", [["a1", "bb"], ["bb", "c"]]], ["add_cpds", "c", "extra", 4], ["remove_node", "a1"]]},
+    "BayesianNetwork.remove_nodes_from:dangling-cpd-of-non-child": {"cls": "BN", "ops": [
+        ["add_edges_from", [["a1", "bb"], ["bb", "c"]]], ["add_cpds", "c", "extra", 4], ["remove_nodes_from", ["a1", "bb"]]]},
+    "DynamicBayesianNetwork.remove_node:slice-structure-broken": {"cls": "DBN", "ops": [["add_edge", ["d1", 0], ["d1", 1]], ["remove_node", ["d1", 0]]]},
     "DynamicBayesianNetwork.add_edge:cycle-accepted:after-remove_node": {"cls": "DBN", "ops": [
         ["add_edge", ["d1", 0], ["e", 0]], ["remove_node", ["d1", 0]], ["add_edge", ["e", 0], ["d1", 0]]]},
     "DynamicBayesianNetwork.copy:content-nodes:after-remove_node": {"cls": "DBN", "ops": [["add_edge", ["d1", 0], ["d1", 1]], ["remove_node", ["d1", 0]], ["copy", True]]},
@@ -302,6 +307,12 @@ class Runner:
             back = [e for e in s.edges if isinstance(e[0], tuple) and isinstance(e[1], tuple) and e[0][1] > e[1][1]]
             if back:
                 out["backward"] = ("backward-edge", f"edges from slice 1 to slice 0: {back}")
+            if not bad:
+                # two-slice representation every DBN method relies on: slice-0 twin of every node, intra-slice edges in both slices
+                miss = [x for x in s.nodes if (x[0], 0) not in s.nodes]
+                unm = [(u, v) for (u, v) in s.edges if u[1] == v[1] and ((u[0], 1 - u[1]), (v[0], 1 - v[1])) not in s.edges]
+                if miss or unm:
+                    out["twoslice"] = ("slice-structure-broken", f"nodes without slice-0 twin {miss}; intra-slice edges without twin {unm}")
         return out
 
     def inv(self, pre, post, op, who="model"):
@@ -309,7 +320,11 @@ class Runner:
         for kind, (suffix, text) in b.items():
             if kind not in a:
                 if suffix == "cpd-scope-outside-nodes" and op[0].startswith("remove_node"):
-                    suffix = "dangling-cpd"
+                    # BN: was the CPD's variable a graph child of a removed node (handled by remove_node) or not (finding)?
+                    gone = pre.nodes - post.nodes
+                    ent = [e for e in post.entries if "scope:" + _key(e["variables"]) == kind]
+                    child = all((g, e["var"]) in pre.edges for e in ent for g in set(e["variables"]) - post.nodes)
+                    suffix = "dangling-cpd" if (child or self.cls != "BN") else "dangling-cpd-of-non-child"
                 self.fail(f"{self.name}.{op[0]}:{suffix}", f"{who}: {text}")
 
     def check_frozen(self, op):
@@ -362,12 +377,12 @@ class Runner:
                 self.fail(f"{n}.check_model:rejects-consistent-model", f"after {op}: every node has a valid CPD over its parents but check_model -> {v2!r}")
         self.check_frozen(op)
 
-    def run(self, ops):
+    def run(self, ops, stop=True):
         """the exploration of a history ends at the first state that violates Inv (the induction hypothesis is gone;
         the operation that broke it has been reported)."""
         for op in ops:
             self.step(op)
-            if self.inv_kinds(self.snap()):
+            if stop and self.inv_kinds(self.snap()):
                 break
         return self.fails
 
@@ -805,7 +820,7 @@ def gen_repro(tier, seed):
 
 def check_repro(case):
     r = Runner(case["cls"])
-    fails = r.run(case["ops"])
+    fails = r.run(case["ops"], stop=False)
     for f in fails:
         if f["key"] == case["expect"]:
             return f
@@ -1071,9 +1086,10 @@ def check_copy(case):
             "add_node": lambda: A.add_node("fresh"),
             "remove_factors": lambda: A.remove_factors(A.factors[0]),
         })
+    s_A = snapf(A)
     ok, val = _call(edits[asp])
     label = asp + ("" if ok else f" (raised {type(val).__name__}: {val})")
-    if snapf(A).diff(snapf(B)) == [] and ok and cls != "FG":
+    if snapf(A).diff(s_A) == [] and ok and cls != "FG":
         return {"key": f"{name}.copy:edit-had-no-effect", "what": f"checker: edit `{label}` did not change the edited side"}
     d = snapf(B).diff(s_B)
     if d:
